@@ -26,6 +26,7 @@ class RngModule(object):
         hands out a generator owned by the simulator"""
         if self._cls is None:
             factory = self._factory
+            base = [None]
 
             class _Meta(type):
                 def __instancecheck__(cls, inst):
@@ -35,12 +36,14 @@ class RngModule(object):
                     return issubclass(sub, random.Random)
 
                 def __call__(cls, *a, **k):
+                    if cls is not base[0]:
+                        return type.__call__(cls, *a, **k)      # a subclass defined by the library: an ordinary generator
                     r = factory()
                     seed = a[0] if a else k.get("x")
                     if seed is not None:
                         r.seed(seed)          # an explicit seed is honoured (the counted MT reproduces the real stream)
                     return r
-            self._cls = _Meta("Random", (random.Random,), {})
+            self._cls = base[0] = _Meta("Random", (random.Random,), {})
         return self._cls
 
     def SystemRandom(self, *a):
